@@ -19,7 +19,7 @@ namespace
   void run(uint64_t idx, Ctx &ctx)
   {
     static const int c_cmp = Ctx::counter_id("values_compared"), c_files = Ctx::counter_id("output_dir_checks");
-    const Radix rx({4, 3, 3, 3});
+    const Radix rx({4, 3, 4, 3});
     const auto d = rx.decode(idx);
     worlds::Opt o;
     o.spherical = d[0] == 1;
@@ -36,7 +36,7 @@ namespace
     const bool flag_values[] = {false, false, true};
     const bool *has_ptr = d[1] == 0 ? nullptr : &flag_values[d[1]];
     const bool has = d[1] == 2;
-    const char *dir_values[] = {nullptr, "", "outdir/"};
+    const char *dir_values[] = {nullptr, "", "outdir/", "outdir/run1_"};   // the last one is a plain prefix: the library prepends the string to the file names as it is
     const char *dir_ptr = dir_values[d[2]];
     const std::string dir = dir_ptr ? dir_ptr : "";
     const std::string desc = JObj().integer("world", d[0]).str("has_output_dir", d[1] == 0 ? "NULL" : has ? "&true" : "&false")
@@ -72,10 +72,33 @@ namespace
       if (nfiles != (has ? 4u : 0u))
         ctx.violation("C16/create_world/stray-output-files", JObj().str("what", "unexpected set of files written by create_world").str("files", listing).raw("args", desc).done());
     }
+    auto list_files = [&]()
+    {
+      std::string l;
+      FILE *pp = popen(("cd " + cwd + " && find . -type f | sort").c_str(), "r");
+      char b[512];
+      while (pp && fgets(b, sizeof b, pp)) l += b;
+      if (pp) pclose(pp);
+      return l;
+    };
     (void)!system(("rm -rf " + cwd + "/outdir/* " + cwd + "/world_builder_declarations*").c_str());
     World native(file, has, dir, seed);
+    const std::string native_files = list_files();
     (void)!system(("rm -rf " + cwd + "/outdir/* " + cwd + "/world_builder_declarations*").c_str());
-    wrapper_cpp::WorldBuilderWrapper cpp(file, has, dir, seed);
+    std::unique_ptr<wrapper_cpp::WorldBuilderWrapper> cpp_holder;
+    try { cpp_holder = std::make_unique<wrapper_cpp::WorldBuilderWrapper>(file, has, dir, seed); }
+    catch (const std::exception &e)
+      {
+        ctx.violation("C16/cpp-wrapper/throws-on-valid-arguments", JObj().str("what", std::string("WorldBuilderWrapper constructor threw where the native World is built: ") + std::string(e.what()).substr(0, 300)).raw("args", desc).done());
+        if (chdir("/verif") != 0) _exit(3);
+        return;
+      }
+    wrapper_cpp::WorldBuilderWrapper &cpp = *cpp_holder;
+    // the wrapper must hand its arguments to the world unchanged: same set of declaration files as the native world
+    ctx.count(c_files);
+    const std::string cpp_files = list_files();
+    if (cpp_files != native_files)
+      ctx.violation("C16/cpp-wrapper/output-dir-not-passed-unchanged", JObj().str("what", "the C++ wrapper wrote its declaration files somewhere else than a native World built with the same arguments").str("native_files", native_files).str("wrapper_files", cpp_files).raw("args", desc).done());
     // the C++ wrapper has no random-sensitive entry point; for the random world a second native twin mirrors the C world's query stream
     auto bad = [&](const std::string &fn, const P3 &p, double depth, const std::string &extra)
     {
@@ -187,7 +210,7 @@ int main(int argc, char **argv)
   return driver(argc, argv, spec, [](const std::string &)
   {
     std::vector<Suite> s(1);
-    s[0].name = "wrappers"; s[0].n = 4*3*3*3; s[0].run = run;
+    s[0].name = "wrappers"; s[0].n = 4*3*4*3; s[0].run = run;
     s[0].bound = "4 worlds x 3 flag pointers x 3 directory arguments x 3 seeds, full product; 240 3-D + 54 2-D points x 56 request lists";
     return s;
   });
